@@ -182,6 +182,24 @@ func c01R1(c *Ctx, r *Report) {
 							bad = append(bad, fmt.Sprintf("ready although not wanted (mgmt=%v enabled=%v asDep=%v shutdown=%v)", mgmt, en, asDep, sd))
 						}
 					}
+					// the converse: in the right own state, wanted, and with nothing to wait for, the answer must be ready
+					waitFor := false
+					for _, mw := range sp.mustWait {
+						if mw == dep {
+							waitFor = true
+						}
+					}
+					if self == sp.self && sp.wanted(mgmt, en, asDep, sd) && !waitFor {
+						hasReady := false
+						for _, l := range labels {
+							if l == retReady {
+								hasReady = true
+							}
+						}
+						if !hasReady {
+							bad = append(bad, fmt.Sprintf("not ready although wanted and nothing to wait for (own status %s, %s in state %s, mgmt=%v enabled=%v asDep=%v shutdown=%v)", self, sp.depDesc, dep, mgmt, en, asDep, sd))
+						}
+					}
 					for _, mw := range sp.mustWait {
 						if mw == dep {
 							for _, l := range viaDep {
